@@ -46,17 +46,18 @@ func (s *fcSink) OnPrunedNode(ctx context.Context, ref forkchoice.NodeRef, canon
 }
 
 type fcHarness struct {
-	b      *fw.B
-	cat    fcCat
-	fc     forkchoice.Forkchoice
-	graph  *proto.ProtoArray
-	m      *fcmodel.Model
-	sink   *fcSink
-	trace  []string
-	roots  []common.Root // every root ever used (known and unknown)
-	dead   bool          // stop this history (violation found / panic)
-	pruned bool
-	nv     int
+	b         *fw.B
+	cat       fcCat
+	fc        forkchoice.Forkchoice
+	graph     *proto.ProtoArray
+	m         *fcmodel.Model
+	sink      *fcSink
+	trace     []string
+	roots     []common.Root // every root ever used (known and unknown)
+	dead      bool          // stop this history (violation found / panic)
+	lastWords bool          // the final query battery after a foreign-category divergence is running or done
+	pruned    bool
+	nv        int
 	// taint: a known-finding class this history falls into (affects signatures), "" if none
 	taint string
 }
@@ -67,6 +68,13 @@ func (h *fcHarness) viol(cat fcCat, sig, what string) {
 			sig = sig + "@" + h.taint
 		}
 		h.b.Violate(sig, what+" — history: "+fmt.Sprint(h.trace), map[string]any{"history": h.trace})
+	} else if h.cat == catQuery && !h.lastWords && !h.dead {
+		// A divergence that belongs to another property's category ends this history (model and library are out of step),
+		// but not silently: whatever it left behind in the graph is first put to the full query battery, whose answers are
+		// this property's business (e.g. nodes that should have been pruned and still answer).
+		h.lastWords = true
+		h.b.Inc("histories_ended_by_another_category_after_a_last_query_battery")
+		h.queryBattery(true)
 	}
 	h.dead = true
 }
